@@ -117,6 +117,13 @@ def run(ck, tier):
     ck.rule("R-C14-serde", "IgnoredLints derives Serialize+Deserialize without asymmetric attributes; wasm export/import use serde_json to_string/from_str on that type and import appends")
     ck.not_decided += ["hash collisions", "the exact 2-character neighbourhood arithmetic of LintContext::from_lint"]
     p = facts.load()
+    ck.rule("R-C14-lifetime", "harper-ls keeps the ignored lints in the per-document state, so that state has to live as long as the document is open: no function takes a document's entry out of the table of open documents and then goes on to build the state for the same document anew (update_document / refresh_document / entry / insert after the removal) - the new DocumentState starts with an empty ignore list")
+    try:
+        from . import c09
+        c09.docmap_lifetime(ck, p, "R-C14-lifetime")
+    except Exception as e:
+        import traceback
+        ck.refuted("R-C14-lifetime", "internal:%s" % type(e).__name__, "", "rule could not run: %s" % traceback.format_exc()[-600:])
     tg = TyGraph(p)
     if not ck.anchor("R-C14-locfree", ROOT, tg.find_type(ROOT)):
         return
